@@ -184,9 +184,28 @@ class Case:
             if others:
                 o = rng.choice(others)
                 attempt("dimension_link", lambda: o.append_set_dimension().link_data_frame(victim, 0))
+        twins = []
+        if kind in ("Source", "NestedSource", "Section", "NestedSection") and rng.random() < 0.6:
+            # the subtree re-uses ONE name under different parents (and the victim's own name further down): every one of them is
+            # a different entity, each with its own inbound link - all of them go, and all their links
+            try:
+                mk = (lambda p, n: p.create_source(n, "twin")) if "Source" in kind else (lambda p, n: p.create_section(n, "twin"))
+                cname = "sources" if "Source" in kind else "sections"
+                nm = B.uniq(getattr(victim, cname), "dup")
+                a = mk(victim, nm)
+                B.born(a, victim.id, cname)
+                b2 = mk(a, nm)
+                B.born(b2, a.id, cname)
+                c2 = mk(b2, victim.name) if victim.name not in [x.name for x in getattr(b2, cname)] else None
+                if c2 is not None:
+                    B.born(c2, b2.id, cname)
+                twins = [a, b2] + ([c2] if c2 is not None else [])
+                roles.add("same_name_in_subtree")
+            except Exception:
+                self.ctx.count("wire_failed:twins")
         if kind in ("Source", "NestedSource"):
             # also give the deepest descendant a link: subtree links must go as well
-            targets = [victim] + [s for s, _ in B.walk_sources(blk) if s.id in B.closure(victim) and s.id != victim.id][-1:]
+            targets = [victim] + [s for s, _ in B.walk_sources(blk) if s.id in B.closure(victim) and s.id != victim.id][-1:] + twins
             for tgt in targets:
                 holders = list(blk.data_arrays)[:2] + list(blk.tags)[:1] + list(blk.multi_tags)[:1] + list(blk.groups)[:1]
                 for h in holders:
@@ -194,13 +213,13 @@ class Case:
                         attempt("sources:" + type(h).__name__, lambda h=h, tgt=tgt: h.sources.append(tgt))
         if kind in ("Section", "NestedSection"):
             sub = [s for s, _ in B.walk_sections() if s.id in B.closure(victim)]
-            targets = [victim] + sub[-1:]
+            targets = [victim] + sub[-1:] + twins
             holders = []
             for b in f.blocks:
                 holders.append(b)
                 holders += list(b.data_arrays)[:1] + list(b.tags)[:1] + list(b.multi_tags)[:1] + list(b.groups)[:1] + [s for s, _ in B.walk_sources(b)][:1] + list(b.data_frames)[:1]
             rng.shuffle(holders)
-            for i, h in enumerate(holders[:6]):
+            for i, h in enumerate(holders[:6 + len(twins)]):
                 tgt = targets[i % len(targets)]
                 attempt("metadata:" + type(h).__name__, lambda h=h, tgt=tgt: setattr(h, "metadata", tgt))
             outside = [s for s, _ in B.walk_sections() if s.id not in B.closure(victim)]
